@@ -253,6 +253,7 @@ func (v *Verifier) verifyFunc(cu *FuncUnit, con *Contract) (res *FuncResult) {
 	for _, cl := range con.Clauses {
 		if cl.Kind == "order_only" && !hasAnyProp(con.TaggedOnly, v.curProps) {
 			res.Notes = append(res.Notes, "order_only: only the map-iteration-order clauses of this contract are checked (C14)")
+			res.Obls = v.pinObligations(cu, con, name)
 			return res
 		}
 	}
@@ -581,4 +582,54 @@ func (x *Exec) emitObls(cu *FuncUnit, con *Contract) {
 func fatalf(format string, args ...interface{}) {
 	fmt.Fprintf(os.Stderr, format+"\n", args...)
 	os.Exit(2)
+}
+
+// pinObligations: in an order_only run the purely textual pins (`before_stmt "fragment" true`) that carry the current
+// property are still checked - syntactically: some statement of the body starts with the fragment. An order assumption of
+// the form "the list is consumed as a set by F" is only as good as the pin that says F is the consumer.
+func (v *Verifier) pinObligations(cu *FuncUnit, con *Contract, name string) []*Obligation {
+	var obls []*Obligation
+	var texts []string
+	ast.Inspect(cu.Decl.Body, func(n ast.Node) bool {
+		if s, ok := n.(ast.Stmt); ok {
+			switch s.(type) {
+			case *ast.BlockStmt, *ast.LabeledStmt:
+			default:
+				texts = append(texts, strings.Join(strings.Fields(exprStr(s)), " "))
+			}
+		}
+		return true
+	})
+	for k, cl := range con.Clauses {
+		if cl.Kind != "before_stmt" && cl.Kind != "after_stmt" {
+			continue
+		}
+		if len(cl.Props) > 0 && !hasAnyProp(cl.Props, v.curProps) {
+			continue
+		}
+		t := strings.TrimSpace(cl.Text)
+		if len(t) < 2 || (t[0] != '"' && t[0] != '`') {
+			continue
+		}
+		end := strings.Index(t[1:], t[:1])
+		if end < 0 || strings.TrimSpace(t[2+end:]) != "true" {
+			continue
+		}
+		frag := t[1 : 1+end]
+		hit := false
+		for _, tx := range texts {
+			if strings.HasPrefix(tx, frag) {
+				hit = true
+				break
+			}
+		}
+		o := &Obligation{Func: name, Name: fmt.Sprintf("%s/pin#%d", name, k), Kind: "pin", Props: cl.Props, Goal: "true", Src: cl.Text, Pos: posStr(v.fset, cu.Decl.Pos()), Solver: "syntactic"}
+		if hit {
+			o.Status = "proved"
+		} else {
+			o.Status, o.Goal, o.Output = "failed", "false", "no statement of the body starts with the pinned fragment"
+		}
+		obls = append(obls, o)
+	}
+	return obls
 }
